@@ -1,4 +1,5 @@
 import QP.Proofs.C17Hold
+import QP.Proofs.C17Sweep
 /-! The fragment theorem: for repetition-free, well-formed programs with faithful keys the structured
 commands emitted by the translator play the staircase `stepsList`. -/
 namespace QP.C17.Frag
@@ -122,19 +123,20 @@ theorem wf_touches_len (nch : Nat) : ∀ (factors : List (Option (List Rat))) (d
     · exact wf_touches_len nch fs d (ch0 + 1) h.2 p hp
 
 mutual
-theorem lt1_ok (res : Rat) (nch : Nat) : (n : Node) → ∀ (d : Nat), hasRep n = false → wellFormed nch d n = true →
+theorem lt1_ok (res : Rat) (nch : Nat) : (n : Node) → ∀ (d : Nat), wellFormed nch d n = true →
     LtOK res (lt1 res n) (touches n) d ∧ LtAll res (lt1 res n) (touches n) ∧ LpOK (lp1 n) (plains n)
-  | .hold bases factors dur, d, _, hw => by
+  | .hold bases factors dur, d, hw => by
     simp only [wellFormed, Bool.and_eq_true, beq_iff_eq] at hw
     have hl : bases.length = factors.length := by rw [hw.1.1, hw.1.2]
     simp only [lt1, lp1, touches, plains]
     exact ⟨ltHold_ok res bases factors 0 d hl (wf_touches_len nch factors d 0 hw.2),
       ltHold_all res bases factors 0 hl, lpHold_ok bases factors 0⟩
-  | .rep body count, d, hn, _ => by simp [hasRep] at hn
-  | .iter body length, d, hn, hw => by
-    simp only [hasRep] at hn
+  | .rep body count, d, hw => by
     simp only [wellFormed, Bool.and_eq_true, decide_eq_true_eq] at hw
-    obtain ⟨h1, h2, h3⟩ := ltL_ok res nch body (d + 1) hn hw.2
+    simpa only [lt1, lp1, touches, plains] using ltL_ok res nch body d hw.2
+  | .iter body length, d, hw => by
+    simp only [wellFormed, Bool.and_eq_true, decide_eq_true_eq] at hw
+    obtain ⟨h1, h2, h3⟩ := ltL_ok res nch body (d + 1) hw.2
     simp only [lt1, lp1, touches, plains]
     refine ⟨?_, ?_, h3⟩
     · intro ch κ t ht
@@ -145,19 +147,18 @@ theorem lt1_ok (res : Rat) (nch : Nat) : (n : Node) → ∀ (d : Nat), hasRep n 
     · intro p hp
       obtain ⟨t, ht⟩ := h2 p hp
       exact ⟨(t.1, t.2.1, lastIdx length :: t.2.2), by simp only [shiftRel, ht, Option.map_some]⟩
-theorem ltL_ok (res : Rat) (nch : Nat) : (ns : List Node) → ∀ (d : Nat), hasRepList ns = false →
+theorem ltL_ok (res : Rat) (nch : Nat) : (ns : List Node) → ∀ (d : Nat),
     wellFormedList nch d ns = true →
     LtOK res (ltL res ns) (touchesList ns) d ∧ LtAll res (ltL res ns) (touchesList ns) ∧ LpOK (lpL ns) (plainsList ns)
-  | [], d, _, _ => by
+  | [], d, _ => by
     refine ⟨?_, ?_, ?_⟩
     · intro ch κ t h; simp [ltL] at h
     · intro p hp; simp [touchesList] at hp
     · intro ch v h; simp [lpL] at h
-  | n :: ns, d, hn, hw => by
-    simp only [hasRepList, Bool.or_eq_false_iff] at hn
+  | n :: ns, d, hw => by
     simp only [wellFormedList, Bool.and_eq_true] at hw
-    obtain ⟨a1, a2, a3⟩ := lt1_ok res nch n d hn.1 hw.1
-    obtain ⟨b1, b2, b3⟩ := ltL_ok res nch ns d hn.2 hw.2
+    obtain ⟨a1, a2, a3⟩ := lt1_ok res nch n d hw.1
+    obtain ⟨b1, b2, b3⟩ := ltL_ok res nch ns d hw.2
     refine ⟨?_, ?_, ?_⟩
     · intro ch κ t h
       simp only [ltL] at h
@@ -395,41 +396,197 @@ theorem ov_eq_none {α} {a b : Option α} (h : ov a b = none) : a = none ∧ b =
 theorem ov_idem {α} (a b : Option α) : ov a (ov a b) = ov a b := by cases a <;> rfl
 
 mutual
-theorem wf_depth1 (nch : Nat) : (n : Node) → ∀ (d : Nat), hasRep n = false → wellFormed nch d n = true →
+theorem wf_depth1 (nch : Nat) : (n : Node) → ∀ (d : Nat), wellFormed nch d n = true →
     ∀ p ∈ touches n, d ≤ p.2.length
-  | .hold bases factors dur, d, _, hw, p, hp => by
+  | .hold bases factors dur, d, hw, p, hp => by
     simp only [wellFormed, Bool.and_eq_true] at hw
     simp only [touches] at hp
     exact Nat.le_of_eq (wf_touches_len nch factors d 0 hw.2 p hp).symm
-  | .rep body count, d, hn, _, _, _ => by simp [hasRep] at hn
-  | .iter body length, d, hn, hw, p, hp => by
-    simp only [hasRep] at hn
+  | .rep body count, d, hw, p, hp => by
     simp only [wellFormed, Bool.and_eq_true] at hw
     simp only [touches] at hp
-    have := wf_depthL nch body (d + 1) hn hw.2 p hp
+    exact wf_depthL nch body d hw.2 p hp
+  | .iter body length, d, hw, p, hp => by
+    simp only [wellFormed, Bool.and_eq_true] at hw
+    simp only [touches] at hp
+    have := wf_depthL nch body (d + 1) hw.2 p hp
     omega
-theorem wf_depthL (nch : Nat) : (ns : List Node) → ∀ (d : Nat), hasRepList ns = false →
+theorem wf_depthL (nch : Nat) : (ns : List Node) → ∀ (d : Nat),
     wellFormedList nch d ns = true → ∀ p ∈ touchesList ns, d ≤ p.2.length
-  | [], _, _, _, p, hp => by simp [touchesList] at hp
-  | n :: ns, d, hn, hw, p, hp => by
-    simp only [hasRepList, Bool.or_eq_false_iff] at hn
+  | [], _, _, p, hp => by simp [touchesList] at hp
+  | n :: ns, d, hw, p, hp => by
     simp only [wellFormedList, Bool.and_eq_true] at hw
     simp only [touchesList, List.mem_append] at hp
     rcases hp with hp | hp
-    · exact wf_depth1 nch n d hn.1 hw.1 p hp
-    · exact wf_depthL nch ns d hn.2 hw.2 p hp
+    · exact wf_depth1 nch n d hw.1 p hp
+    · exact wf_depthL nch ns d hw.2 p hp
+end
+
+/-! ### channels named by the last-touch functions are real channels -/
+
+theorem laHold_lt (res : Rat) : ∀ (bs : List Rat) (fs : List (Option (List Rat))) (ch0 ch : Nat) (κ : Key),
+    laHold res bs fs ch0 ch = some κ → ch < ch0 + bs.length
+  | [], _, _, _, _, h => by simp [laHold] at h
+  | _ :: _, [], _, _, _, h => by simp [laHold] at h
+  | _ :: bs, none :: fs, ch0, ch, κ, h => by
+    simp only [laHold] at h
+    by_cases hx : ch = ch0
+    · simp only [List.length_cons]; omega
+    · rw [if_neg hx] at h
+      have := laHold_lt res bs fs (ch0 + 1) ch κ h
+      simp only [List.length_cons]; omega
+  | _ :: bs, some _ :: fs, ch0, ch, κ, h => by
+    simp only [laHold] at h
+    by_cases hx : ch = ch0
+    · simp only [List.length_cons]; omega
+    · rw [if_neg hx] at h
+      have := laHold_lt res bs fs (ch0 + 1) ch κ h
+      simp only [List.length_cons]; omega
+
+theorem lpHold_lt : ∀ (bs : List Rat) (fs : List (Option (List Rat))) (ch0 ch : Nat) (v : Rat),
+    lpHold bs fs ch0 ch = some v → ch < ch0 + bs.length
+  | [], _, _, _, _, h => by simp [lpHold] at h
+  | _ :: _, [], _, _, _, h => by simp [lpHold] at h
+  | _ :: bs, none :: fs, ch0, ch, v, h => by
+    simp only [lpHold] at h
+    by_cases hx : ch = ch0
+    · simp only [List.length_cons]; omega
+    · rw [if_neg hx] at h
+      have := lpHold_lt bs fs (ch0 + 1) ch v h
+      simp only [List.length_cons]; omega
+  | _ :: bs, some _ :: fs, ch0, ch, v, h => by
+    simp only [lpHold] at h
+    have := lpHold_lt bs fs (ch0 + 1) ch v h
+    simp only [List.length_cons]; omega
+
+mutual
+theorem la1_lt (res : Rat) (nch : Nat) : (n : Node) → ∀ (d : Nat), wellFormed nch d n = true →
+    (∀ ch κ, la1 res n ch = some κ → ch < nch) ∧ (∀ ch v, lp1 n ch = some v → ch < nch)
+  | .hold bases factors dur, d, hw => by
+    simp only [wellFormed, Bool.and_eq_true, beq_iff_eq] at hw
+    refine ⟨?_, ?_⟩
+    · intro ch κ h
+      simp only [la1] at h
+      have := laHold_lt res bases factors 0 ch κ h
+      omega
+    · intro ch v h
+      simp only [lp1] at h
+      have := lpHold_lt bases factors 0 ch v h
+      omega
+  | .rep body count, d, hw => by
+    simp only [wellFormed, Bool.and_eq_true] at hw
+    simpa only [la1, lp1] using laL_lt res nch body d hw.2
+  | .iter body length, d, hw => by
+    simp only [wellFormed, Bool.and_eq_true] at hw
+    simpa only [la1, lp1] using laL_lt res nch body (d + 1) hw.2
+theorem laL_lt (res : Rat) (nch : Nat) : (ns : List Node) → ∀ (d : Nat), wellFormedList nch d ns = true →
+    (∀ ch κ, laL res ns ch = some κ → ch < nch) ∧ (∀ ch v, lpL ns ch = some v → ch < nch)
+  | [], _, _ => by
+    refine ⟨?_, ?_⟩
+    · intro ch κ h; simp [laL] at h
+    · intro ch v h; simp [lpL] at h
+  | n :: ns, d, hw => by
+    simp only [wellFormedList, Bool.and_eq_true] at hw
+    obtain ⟨a1, a2⟩ := la1_lt res nch n d hw.1
+    obtain ⟨b1, b2⟩ := laL_lt res nch ns d hw.2
+    refine ⟨?_, ?_⟩
+    · intro ch κ h
+      simp only [laL] at h
+      cases hb : laL res ns ch with
+      | some k => exact b1 ch k hb
+      | none => rw [hb] at h; exact a1 ch κ (by simpa using h)
+    · intro ch v h
+      simp only [lpL] at h
+      cases hb : lpL ns ch with
+      | some k => exact b2 ch k hb
+      | none => rw [hb] at h; exact a2 ch v (by simpa using h)
 end
 
 theorem passes_count (L : Nat) (h : L > 1) : passesLeft ((L : Int) - 1 - 1) = L - 1 := by
   simp only [passesLeft]
   omega
 
+theorem passes_count_rep (n : Nat) (h : n ≥ 1) : passesLeft ((n : Int) - 1) = (n - 1) + 1 := by
+  simp only [passesLeft]
+  omega
+
+/-- what `entryChanged = false` says -/
+theorem entryChanged_false {res : Rat} {nch : Nat} {g : List (Nat × List Rat)} {a b : Sweep}
+    (h : entryChanged res nch g a b = false) :
+    (∀ p ∈ g, ∀ ds, a.depStates p.1 (depKey res p.2) = some ds → b.depStates p.1 (depKey res p.2) = some ds) ∧
+    (∀ ch, ch < nch → ∀ κ, a.activeDep ch = some κ → b.activeDep ch = some κ) ∧
+    (∀ ch, ch < nch → ∀ v, a.plainVoltage ch = some v → b.plainVoltage ch = some v) := by
+  simp only [entryChanged, Bool.or_eq_false_iff, List.any_eq_false, Bool.and_eq_true, decide_eq_true_eq,
+    not_and, Decidable.not_not, List.mem_range] at h
+  obtain ⟨h1, h2⟩ := h
+  refine ⟨?_, ?_, ?_⟩
+  · intro p hp ds hds
+    have := h1 p hp (by simp [hds])
+    rw [← this]; exact hds
+  · intro ch hch κ hk
+    by_cases hb : a.activeDep ch = b.activeDep ch
+    · rw [← hb]; exact hk
+    · exact absurd (by rw [hk] at hb; simp [hk]; exact Or.inl hb) (h2 ch hch)
+  · intro ch hch v hv
+    by_cases hb : a.plainVoltage ch = b.plainVoltage ch
+    · rw [← hb]; exact hv
+    · exact absurd (by rw [hv] at hb; simp [hv]; exact Or.inr hb) (h2 ch hch)
+
+/-- repeated passes of a repetition body whose translation state is stable -/
+theorem rep_passes {res : Rat} {nch : Nat} {PL : List Nat} {c c3 : TS} {T : List (Nat × List Rat)}
+    {lt : LT} {lp : Nat → Option Rat} {s1 : List SCmd} {env : List Nat} (stp : List (Rat × List Rat))
+    (hstep : ∀ V, DReady res c V env T → Inv nch PL c V →
+      ∃ V', execL s1 V = .ok V' ∧ Inv nch PL c3 V' ∧ V'.hist = V.hist ++ timed V.time stp ∧
+        V'.time = V.time + totalDur stp ∧ Post lt V' env ∧ Frm lt lp V V')
+    (hback : ∀ V, Inv nch PL c3 V → Post lt V env → DReady res c V env T ∧ Inv nch PL c V) :
+    ∀ (k : Nat) (V : VM), DReady res c V env T → Inv nch PL c V →
+      ∃ V', iterN (fun v => execL s1 v) (k + 1) V = .ok V' ∧ Inv nch PL c3 V' ∧
+        V'.hist = V.hist ++ timed V.time (repeatApp stp (k + 1)) ∧
+        V'.time = V.time + totalDur (repeatApp stp (k + 1)) ∧ Post lt V' env ∧ Frm lt lp V V' := by
+  intro k
+  induction k with
+  | zero =>
+    intro V hd hinv
+    obtain ⟨V1, he, hinv1, hh, ht, hp, hf⟩ := hstep V hd hinv
+    refine ⟨V1, by simp only [iterN, he], hinv1, ?_, ?_, hp, hf⟩
+    · simp only [repeatApp, List.append_nil]; exact hh
+    · simp only [repeatApp, List.append_nil]; exact ht
+  | succ k ih =>
+    intro V hd hinv
+    obtain ⟨V1, he, hinv1, hh, ht, hp, hf⟩ := hstep V hd hinv
+    obtain ⟨hd1, hinv1'⟩ := hback V1 hinv1 hp
+    obtain ⟨V', he', hinv', hh', ht', hp', hf'⟩ := ih V1 hd1 hinv1'
+    refine ⟨V', ?_, hinv', ?_, ?_, hp', ?_⟩
+    · rw [iterN, he]; exact he'
+    · rw [hh', hh, ht]; simp only [repeatApp, timed_append, List.append_assoc]
+    · rw [ht', ht]; simp only [repeatApp, totalDur_append]; grind
+    · intro ch κ h1 h2
+      rw [hf' ch κ h1 h2, hf ch κ h1 h2]
+
+/-- after a node the registers it touched are ready again relative to the NEW state -/
+theorem dready_after {res : Rat} {nch : Nat} {G : List (Nat × List Rat)} {PL : List Nat}
+    (glob : Global res nch G PL) {c c1 : TS} {lt : LT} {la : Nat → Option Key} {lp : Nat → Option Rat}
+    (det : Det c c1 lt la lp) (hlt : LtOK res lt G c.iterations.length)
+    {T : List (Nat × List Rat)} (hall : LtAll res lt T) (hT : ∀ p ∈ T, p ∈ G) {V1 : VM} {env : List Nat}
+    (hc : Compat c.iterations env) (hpost : Post lt V1 env) :
+    DReady res c1 V1 env T := by
+  intro p hp ds hds
+  obtain ⟨t, ht⟩ := hall p hp
+  rw [det.dep, ht] at hds
+  simp only [Option.map_some, ov_some, Option.some.injEq] at hds
+  subst hds
+  obtain ⟨h1, h2, h3⟩ := hlt _ _ t ht
+  have : t.2.1 = p.2 := glob.KI p.1 _ _ h1 (hT p hp) h2
+  rw [hpost _ _ t ht, det.its]
+  simp only [val, toDep, actual_self_prefix _ _ _ (compat_length hc), this]
+
 mutual
 theorem main1 {res : Rat} {nch : Nat} {G : List (Nat × List Rat)} {PL : List Nat} (glob : Global res nch G PL) :
-    (n : Node) → ∀ (c : TS), hasRep n = false → wellFormed nch c.iterations.length n = true →
+    (n : Node) → ∀ (c : TS) (σ : Sweep), wellFormed nch c.iterations.length n = true →
     c.resolution = res → (∀ p ∈ touches n, p ∈ G) → (∀ ch ∈ plains n, ch ∈ PL) → SReady res c (touches n) →
+    SimS σ c → (sweep res nch n σ).flagged = false →
     Good res nch PL c (touches n) (lt1 res n) (lp1 n) (fun env => steps env n) (trS1 n c)
-  | .hold bases factors dur, c, _, hw, hres, hG, hP, hS => by
+  | .hold bases factors dur, c, _, hw, hres, hG, hP, hS, _, _ => by
     simp only [wellFormed, Bool.and_eq_true, beq_iff_eq] at hw
     obtain ⟨⟨hb, hf⟩, hall⟩ := hw
     have hl : bases.length = factors.length := by rw [hb, hf]
@@ -463,9 +620,145 @@ theorem main1 {res : Rat} {nch : Nat} {G : List (Nat × List Rat)} {PL : List Na
     · simp only [ht, steps, totalDur]; grind
     · intro ch κ t h; simp only [lt1] at h; exact hpost ch κ t h
     · intro ch κ h h2; simp only [lt1] at h; simp only [lp1] at h2; exact hfrm ch κ h h2
-  | .rep body count, c, hn, _, _, _, _, _ => by simp [hasRep] at hn
-  | .iter body length, c, hn, hw, hres, hG, hP, hS => by
-    simp only [hasRep] at hn
+  | .rep body count, c, σ, hw, hres, hG, hP, hS, hsim, hflag => by
+    simp only [wellFormed, Bool.and_eq_true, decide_eq_true_eq] at hw
+    simp only [touches] at hG hS
+    simp only [plains] at hP
+    have hsim1 : SimS σ ({ c with labelNum := c.labelNum + 1 } : TS) := ⟨hsim.its, hsim.act, hsim.dep, hsim.pl⟩
+    simp only [sweep] at hflag
+    have hflag1 : (sweepList res nch body σ).flagged = false := by
+      split at hflag
+      · have := flag_false_of_list hflag
+        simp only [Bool.or_eq_false_iff] at this
+        exact this.1
+      · simp only [Bool.or_eq_false_iff] at hflag
+        exact hflag.1
+    obtain ⟨s1, c3, hok1, hex1⟩ := mainL glob body { c with labelNum := c.labelNum + 1 } σ hw.2 hres hG hP hS hsim1 hflag1
+    have dt1 := detL res body _ s1 c3 (by exact hres) hok1
+    have hs1 : SimS (sweepList res nch body σ) c3 := simL res nch body _ σ _ _ (by exact hres) hok1 hsim1
+    have hr3 : c3.resolution = res := by rw [dt1.res]; exact hres
+    rw [lookup_congr res σ c hsim hres, lookup_congr res _ c3 hs1 hr3] at hflag
+    obtain ⟨b1, b2, b3⟩ := ltL_ok res nch body c.iterations.length hw.2
+    obtain ⟨l1, l2⟩ := laL_lt res nch body c.iterations.length hw.2
+    have hltG : LtOK res (ltL res body) G c.iterations.length := b1.mono hG
+    have hstepsdef : ∀ env, steps env (.rep body count) = repeatApp (stepsList env body) count := by
+      intro env; simp only [steps]
+    by_cases hsame : sameSet (depLookupS c (depsList body)) (depLookupS c3 (depsList body)) = true
+    · -- the loop is emitted around the first translation of the body
+      simp only [hsame, Bool.not_true, Bool.false_eq_true, if_false, Bool.or_eq_false_iff] at hflag
+      obtain ⟨e1, e2, e3⟩ := entryChanged_false hflag.2
+      refine ⟨[.loop c.labelNum count s1], c3, by simp only [trS1, hok1, hsame, if_true], ?_⟩
+      intro V env hc hd hinv
+      have hback : ∀ W, Inv nch PL c3 W → Post (ltL res body) W env →
+          DReady res c W env (touchesList body) ∧ Inv nch PL c W := by
+        intro W hinvW hpW
+        have hd3 : DReady res c3 W env (touchesList body) :=
+          dready_after glob (c := { c with labelNum := c.labelNum + 1 }) dt1 hltG b2 hG hc hpW
+        refine ⟨?_, ?_⟩
+        · intro p hp ds hds
+          have h3 : c3.depStates p.1 (depKey res p.2) = some ds := by
+            rw [← hs1.dep]; exact e1 p hp ds (by rw [hsim.dep]; exact hds)
+          have := hd3 p hp ds h3
+          rw [dt1.its] at this
+          exact this
+        · refine ⟨?_, ?_, ?_, hinvW.len⟩
+          · intro ch κ hk
+            have h3 : c3.activeDep ch = some κ := by
+              rw [dt1.act]
+              cases hla : laL res body ch with
+              | none => simpa using hk
+              | some κ' =>
+                have hch := l1 ch κ' hla
+                have := e2 ch hch κ (by rw [hsim.act]; exact hk)
+                rw [hs1.act, dt1.act, hla] at this
+                simpa using this
+            exact hinvW.active ch κ h3
+          · intro ch v hv
+            have h3 : c3.plainVoltage ch = some v := by
+              rw [dt1.pl]
+              cases hlp : lpL body ch with
+              | none => simpa using hv
+              | some v' =>
+                have hch := l2 ch v' hlp
+                have := e3 ch hch v (by rw [hsim.pl]; exact hv)
+                rw [hs1.pl, dt1.pl, hlp] at this
+                simpa using this
+            exact hinvW.plain ch v h3
+          · exact hinv.plainDom
+      obtain ⟨k, hk⟩ : ∃ k, count = k + 1 := ⟨count - 1, by omega⟩
+      obtain ⟨V', he, hinv', hh, ht, hp, hf⟩ := rep_passes (res := res) (nch := nch) (PL := PL)
+        (c := c) (c3 := c3) (T := touchesList body) (lt := ltL res body) (lp := lpL body) (s1 := s1) (env := env)
+        (stepsList env body)
+        (fun W hdW hinvW => hex1 W env hc hdW ⟨hinvW.active, hinvW.plain, hinvW.plainDom, hinvW.len⟩)
+        hback k V hd hinv
+      refine ⟨V', ?_, hinv', ?_, ?_, ?_, ?_⟩
+      · simp only [execL, exec1, passes_count_rep count hw.1]
+        rw [show count - 1 + 1 = k + 1 by omega, he]
+      · dsimp only; rw [hh, hstepsdef, hk]
+      · dsimp only; rw [ht, hstepsdef, hk]
+      · intro ch κ t h; simp only [lt1] at h; exact hp ch κ t h
+      · intro ch κ h h2; simp only [lt1] at h; simp only [lp1] at h2; exact hf ch κ h h2
+    · -- "hackedy": first pass unrolled, then a loop of count-1 passes of the re-translated body
+      have hf : sameSet (depLookupS c (depsList body)) (depLookupS c3 (depsList body)) = false := by
+        simpa using hsame
+      simp only [hf, Bool.not_false, if_true] at hflag
+      have hflag2 := flag_false_of_list hflag
+      simp only [Bool.or_eq_false_iff, beq_eq_false_iff_ne, ne_eq] at hflag2
+      have hcount : count ≥ 2 := by omega
+      have hS3 : SReady res c3 (touchesList body) :=
+        sready_advance glob (c := { c with labelNum := c.labelNum + 1 }) dt1 hltG hG hS
+      have hsim3 : SimS ({ sweepList res nch body σ with
+          flagged := (sweepList res nch body σ).flagged || (count == 1) } : Sweep) c3 :=
+        ⟨hs1.its, hs1.act, hs1.dep, hs1.pl⟩
+      obtain ⟨s2, c5, hok2, hex2⟩ := mainL glob body c3 _ (by rw [dt1.its]; exact hw.2) hr3 hG hP hS3 hsim3 hflag
+      have dt2 := detL res body _ s2 c5 hr3 hok2
+      have hltG3 : LtOK res (ltL res body) G c3.iterations.length := by rw [dt1.its]; exact hltG
+      have hact : ∀ ch, c5.activeDep ch = c3.activeDep ch := by
+        intro ch; rw [dt2.act, dt1.act, ov_idem]
+      have hpla : ∀ ch, c5.plainVoltage ch = c3.plainVoltage ch := by
+        intro ch; rw [dt2.pl, dt1.pl, ov_idem]
+      have hdep : ∀ p ∈ touchesList body, c5.depStates p.1 (depKey res p.2) = c3.depStates p.1 (depKey res p.2) := by
+        intro p hp
+        rw [dt2.dep, dt1.dep, dt1.its]
+        show ov _ (ov _ (c.depStates p.1 (depKey res p.2))) = ov _ (c.depStates p.1 (depKey res p.2))
+        show ov (Option.map (toDep c.iterations) (ltL res body p.1 (depKey res p.2)))
+          (ov (Option.map (toDep c.iterations) (ltL res body p.1 (depKey res p.2))) (c.depStates p.1 (depKey res p.2))) = _
+        rw [ov_idem]
+      refine ⟨s1 ++ [.loop c.labelNum ((count : Int) - 1) s2], c5, by simp only [trS1, hok1, hf, Bool.false_eq_true, if_false, hok2], ?_⟩
+      intro V env hc hd hinv
+      obtain ⟨V1, he1, hinv1, hh1, ht1, hp1, hf1⟩ := hex1 V env hc hd ⟨hinv.active, hinv.plain, hinv.plainDom, hinv.len⟩
+      have hc3 : Compat c3.iterations env := by rw [dt1.its]; exact hc
+      have hd1 : DReady res c3 V1 env (touchesList body) :=
+        dready_after glob (c := { c with labelNum := c.labelNum + 1 }) dt1 hltG b2 hG hc hp1
+      have hback : ∀ W, Inv nch PL c5 W → Post (ltL res body) W env →
+          DReady res c3 W env (touchesList body) ∧ Inv nch PL c3 W := by
+        intro W hinvW hpW
+        have hd5 : DReady res c5 W env (touchesList body) := dready_after glob dt2 hltG3 b2 hG hc3 hpW
+        refine ⟨?_, inv_congr (c := c5) (fun ch => (hact ch).symm) (fun ch => (hpla ch).symm) hinvW⟩
+        intro p hp ds hds
+        have := hd5 p hp ds (by rw [hdep p hp]; exact hds)
+        rw [dt2.its] at this
+        exact this
+      obtain ⟨k, hk⟩ : ∃ k, count = k + 2 := ⟨count - 2, by omega⟩
+      obtain ⟨V', he, hinv', hh, ht, hp, hf'⟩ := rep_passes (res := res) (nch := nch) (PL := PL)
+        (c := c3) (c3 := c5) (T := touchesList body) (lt := ltL res body) (lp := lpL body) (s1 := s2) (env := env)
+        (stepsList env body) (fun W hdW hinvW => hex2 W env hc3 hdW hinvW) hback k V1 hd1 hinv1
+      refine ⟨V', ?_, hinv', ?_, ?_, ?_, ?_⟩
+      · rw [execL_append _ _ _ _ he1]
+        simp only [execL, exec1]
+        have hpc : passesLeft ((count : Int) - 1 - 1) = k + 1 := by simp only [passesLeft]; omega
+        rw [hpc, he]
+      · dsimp only at hh1 ht1 ⊢
+        rw [hh, hh1, ht1, hstepsdef, hk]
+        simp only [repeatApp, timed_append, List.append_assoc]
+      · dsimp only at hh1 ht1 ⊢
+        rw [ht, ht1, hstepsdef, hk]
+        simp only [repeatApp, totalDur_append]; grind
+      · intro ch κ t h; simp only [lt1] at h; exact hp ch κ t h
+      · intro ch κ h h2
+        simp only [lt1] at h; simp only [lp1] at h2
+        rw [hf' ch κ h h2, hf1 ch κ h h2]
+  | .iter body length, c, σ, hw, hres, hG, hP, hS, hsim, hflag => by
     simp only [wellFormed, Bool.and_eq_true, decide_eq_true_eq] at hw
     simp only [touches] at hG hS
     simp only [plains] at hP
@@ -473,26 +766,45 @@ theorem main1 {res : Rat} {nch : Nat} {G : List (Nat × List Rat)} {PL : List Na
     have hw0 : wellFormedList nch ({ c with iterations := c.iterations ++ [0] } : TS).iterations.length body = true := by
       show wellFormedList nch (c.iterations ++ [0]).length body = true
       simpa using hw.2
-    obtain ⟨s1, c1, hok1, hex1⟩ := mainL glob body { c with iterations := c.iterations ++ [0] } hn hw0 hres hG hP hS0
-    have dt1 := detL res body _ s1 c1 hn (by exact hres) hok1
-    obtain ⟨b1, b2, b3⟩ := ltL_ok res nch body (c.iterations.length + 1) hn hw.2
+    have hsim0 : SimS ({ σ with iterations := σ.iterations ++ [0] } : Sweep)
+        ({ c with iterations := c.iterations ++ [0] } : TS) :=
+      ⟨by show σ.iterations ++ [0] = c.iterations ++ [0]; rw [hsim.its], hsim.act, hsim.dep, hsim.pl⟩
+    simp only [sweep] at hflag
+    have hflag0 : (sweepList res nch body { σ with iterations := σ.iterations ++ [0] }).flagged = false := by
+      have hflag' := hflag
+      by_cases hl' : length > 1
+      · simp only [hl', if_true] at hflag'
+        have h0 := flag_false_of_list (ns := body) hflag'
+        exact h0
+      · simp only [hl', if_false] at hflag'
+        exact hflag'
+    obtain ⟨s1, c1, hok1, hex1⟩ := mainL glob body { c with iterations := c.iterations ++ [0] } _ hw0 hres hG hP hS0
+      hsim0 hflag0
+    have dt1 := detL res body _ s1 c1 (by exact hres) hok1
+    have hs1 := simL res nch body _ _ _ _ (by exact hres) hok1 hsim0
+    obtain ⟨b1, b2, b3⟩ := ltL_ok res nch body (c.iterations.length + 1) hw.2
     have hdepth : ∀ p ∈ touchesList body, c.iterations.length < p.2.length := by
       intro p hp
-      have := wf_depthL nch body (c.iterations.length + 1) hn hw.2 p hp
+      have := wf_depthL nch body (c.iterations.length + 1) hw.2 p hp
       omega
     have hits1 : c1.iterations = c.iterations ++ [0] := dt1.its
     by_cases hl : length > 1
-    · have hits1' : ({ c1 with iterations := c1.iterations.dropLast ++ [length - 1], labelNum := c1.labelNum + 1 } : TS).iterations
+    · simp only [hl, if_true] at hflag
+      have hits1' : ({ c1 with iterations := c1.iterations.dropLast ++ [length - 1], labelNum := c1.labelNum + 1 } : TS).iterations
           = c.iterations ++ [length - 1] := by
         show c1.iterations.dropLast ++ [length - 1] = _
         rw [hits1, dropLast_snoc]
       obtain ⟨hS1', hready⟩ := ready_pass2 glob (l := length - 1) (by omega) dt1 rfl (b1.mono hG) b2 hG
         (c1' := { c1 with iterations := c1.iterations.dropLast ++ [length - 1], labelNum := c1.labelNum + 1 }) rfl hits1'
       have hres1 : c1.resolution = res := by rw [dt1.res]; exact hres
+      have hsim1' : SimS ({ sweepList res nch body { σ with iterations := σ.iterations ++ [0] } with
+            iterations := (sweepList res nch body { σ with iterations := σ.iterations ++ [0] }).iterations.dropLast ++ [length - 1] } : Sweep)
+          ({ c1 with iterations := c1.iterations.dropLast ++ [length - 1], labelNum := c1.labelNum + 1 } : TS) :=
+        ⟨by show _ ++ [length - 1] = c1.iterations.dropLast ++ [length - 1]; rw [hs1.its], hs1.act, hs1.dep, hs1.pl⟩
       obtain ⟨s2, c2, hok2, hex2⟩ := mainL glob body
-        { c1 with iterations := c1.iterations.dropLast ++ [length - 1], labelNum := c1.labelNum + 1 } hn
-        (by rw [hits1']; simpa using hw.2) hres1 hG hP hS1'
-      have dt2 := detL res body _ s2 c2 hn (by exact hres1) hok2
+        { c1 with iterations := c1.iterations.dropLast ++ [length - 1], labelNum := c1.labelNum + 1 } _
+        (by rw [hits1']; simpa using hw.2) hres1 hG hP hS1' hsim1' hflag
+      have dt2 := detL res body _ s2 c2 (by exact hres1) hok2
       have hact : ∀ ch, c2.activeDep ch = c1.activeDep ch := by
         intro ch
         rw [dt2.act]; show ov _ (c1.activeDep ch) = _
@@ -563,35 +875,36 @@ theorem main1 {res : Rat} {nch : Nat} {G : List (Nat × List Rat)} {PL : List Na
         simp only [lp1] at h2
         exact hf0 ch κ h1 h2
 theorem mainL {res : Rat} {nch : Nat} {G : List (Nat × List Rat)} {PL : List Nat} (glob : Global res nch G PL) :
-    (ns : List Node) → ∀ (c : TS), hasRepList ns = false → wellFormedList nch c.iterations.length ns = true →
+    (ns : List Node) → ∀ (c : TS) (σ : Sweep), wellFormedList nch c.iterations.length ns = true →
     c.resolution = res → (∀ p ∈ touchesList ns, p ∈ G) → (∀ ch ∈ plainsList ns, ch ∈ PL) →
-    SReady res c (touchesList ns) →
+    SReady res c (touchesList ns) → SimS σ c → (sweepList res nch ns σ).flagged = false →
     Good res nch PL c (touchesList ns) (ltL res ns) (lpL ns) (fun env => stepsList env ns) (trSL ns c)
-  | [], c, _, _, _, _, _, _ => by
+  | [], c, _, _, _, _, _, _, _, _ => by
     refine ⟨[], c, rfl, ?_⟩
     intro V env _ _ hinv
     refine ⟨V, rfl, hinv, ?_, ?_, ?_, fun _ _ _ _ => rfl⟩
     · simp [stepsList, timed, withTimes, asHistory]
     · simp only [stepsList, totalDur]; grind
     · intro ch κ t h; simp [ltL] at h
-  | n :: ns, c, hn, hw, hres, hG, hP, hS => by
-    simp only [hasRepList, Bool.or_eq_false_iff] at hn
+  | n :: ns, c, σ, hw, hres, hG, hP, hS, hsim, hflag => by
     simp only [wellFormedList, Bool.and_eq_true] at hw
+    simp only [sweepList] at hflag
     have hG1 : ∀ p ∈ touches n, p ∈ G := fun p hp => hG p (by simp [touchesList, hp])
     have hG2 : ∀ p ∈ touchesList ns, p ∈ G := fun p hp => hG p (by simp [touchesList, hp])
     have hP1 : ∀ ch ∈ plains n, ch ∈ PL := fun p hp => hP p (by simp [plainsList, hp])
     have hP2 : ∀ ch ∈ plainsList ns, ch ∈ PL := fun p hp => hP p (by simp [plainsList, hp])
-    obtain ⟨s1, c1, hok1, hex1⟩ := main1 glob n c hn.1 hw.1 hres hG1 hP1
-      (fun p hp => hS p (by simp [touchesList, hp]))
-    have det := det1 res n c s1 c1 hn.1 hres hok1
-    obtain ⟨a1, a2, a3⟩ := lt1_ok res nch n c.iterations.length hn.1 hw.1
-    obtain ⟨b1, b2, b3⟩ := ltL_ok res nch ns c.iterations.length hn.2 hw.2
+    obtain ⟨s1, c1, hok1, hex1⟩ := main1 glob n c σ hw.1 hres hG1 hP1
+      (fun p hp => hS p (by simp [touchesList, hp])) hsim (flag_false_of_list hflag)
+    have det := det1 res n c s1 c1 hres hok1
+    have hsim1 := sim1 res nch n c σ s1 c1 hres hok1 hsim
+    obtain ⟨a1, a2, a3⟩ := lt1_ok res nch n c.iterations.length hw.1
+    obtain ⟨b1, b2, b3⟩ := ltL_ok res nch ns c.iterations.length hw.2
     have hltG : LtOK res (lt1 res n) G c.iterations.length := a1.mono hG1
     have hlpP : LpOK (lp1 n) PL := fun ch v h => hP1 ch (a3 ch v h)
     have hS1 : SReady res c1 (touchesList ns) :=
       sready_advance glob det hltG hG2 (fun p hp => hS p (by simp [touchesList, hp]))
-    obtain ⟨s2, c2, hok2, hex2⟩ := mainL glob ns c1 hn.2 (by rw [det.its]; exact hw.2)
-      (by rw [det.res]; exact hres) hG2 hP2 hS1
+    obtain ⟨s2, c2, hok2, hex2⟩ := mainL glob ns c1 _ (by rw [det.its]; exact hw.2)
+      (by rw [det.res]; exact hres) hG2 hP2 hS1 hsim1 hflag
     refine ⟨s1 ++ s2, c2, by simp only [trSL, hok1, hok2], ?_⟩
     intro V env hc hd hinv
     obtain ⟨V1, he1, hinv1, hh1, ht1, hp1, hf1⟩ := hex1 V env hc (fun p hp => hd p (by simp [touchesList, hp])) hinv
@@ -628,5 +941,6 @@ theorem mainL {res : Rat} {nch : Nat} {G : List (Nat × List Rat)} {PL : List Na
         exact ov_eq_none this
       rw [hf2 ch κ h1 (fun hk => (hlp' hk).1), hf1 ch κ h2 (fun hk => (hlp' hk).2)]
 end
+
 
 end QP.C17.Frag
